@@ -231,6 +231,11 @@ type RawResponse struct {
 
 // RawRoundTrip writes req verbatim to addr and parses the response.
 func RawRoundTrip(addr string, req []byte, method string, timeout time.Duration) (*RawResponse, error) {
+	return RawRoundTripPaced(addr, req, 0, 0, method, timeout)
+}
+
+// RawRoundTripPaced is RawRoundTrip for a slow client: after the first splitAt bytes it pauses before it sends the rest.
+func RawRoundTripPaced(addr string, req []byte, splitAt int, pause time.Duration, method string, timeout time.Duration) (*RawResponse, error) {
 	start := time.Now()
 	c, err := net.DialTimeout("tcp", addr, 5*time.Second)
 	if err != nil {
@@ -240,6 +245,16 @@ func RawRoundTrip(addr string, req []byte, method string, timeout time.Duration)
 	c.SetDeadline(time.Now().Add(timeout))
 	werr := make(chan error, 1)
 	go func() {
+		if splitAt > 0 && splitAt < len(req) && pause > 0 {
+			if _, err := c.Write(req[:splitAt]); err != nil {
+				werr <- err
+				return
+			}
+			time.Sleep(pause)
+			_, err := c.Write(req[splitAt:])
+			werr <- err
+			return
+		}
 		_, err := c.Write(req)
 		werr <- err
 	}()
